@@ -589,5 +589,279 @@ theorem bindSensor_perm {m : String → String → Bool} {chips chips' : List Ch
   rw [this]
   exact Nat.le_trans (List.length_filter_le _ _) h1
 
+/-! ## several entries in one call (`bindEntriesLoop`, `bindSensors`, `bindFans`) -/
+
+/-- the text of the error for position `i` -/
+def errAt (tag : String) (i : Nat) : String := s!"{tag}@{i}"
+
+theorem errAt_sensor (n : Nat) : errAt "no-hwmon-device" n = s!"no-hwmon-device@{n}" := by
+  have : "no-hwmon-device" ++ "@" = "no-hwmon-device@" := by decide
+  show ("no-hwmon-device" ++ "@") ++ toString n = "no-hwmon-device@" ++ toString n
+  rw [this]
+
+theorem errAt_fan (n : Nat) : errAt "no-hwmon-fan-matched" n = s!"no-hwmon-fan-matched@{n}" := by
+  have : "no-hwmon-fan-matched" ++ "@" = "no-hwmon-fan-matched@" := by decide
+  show ("no-hwmon-fan-matched" ++ "@") ++ toString n = "no-hwmon-fan-matched@" ++ toString n
+  rw [this]
+
+/-- success: the loop appends to `acc`, in order, the result of every entry bound ON ITS OWN -/
+theorem bindEntriesLoop_ok_iff {σ β : Type} (f : σ → Res β) (tag : String) (i : Nat) (sels : List σ)
+    (acc out : List β) :
+    bindEntriesLoop f tag i sels acc = .ok out ↔ ∃ bs, out = acc ++ bs ∧ sels.map f = bs.map Res.ok := by
+  induction sels generalizing i acc with
+  | nil =>
+    simp only [bindEntriesLoop, Res.ok.injEq, List.map_nil]
+    constructor
+    · intro h; exact ⟨[], by simp [h], rfl⟩
+    · rintro ⟨bs, rfl, h⟩
+      cases bs with
+      | nil => simp
+      | cons b bs => simp at h
+  | cons sel rest ih =>
+    unfold bindEntriesLoop
+    cases hf : f sel with
+    | ok b =>
+      simp only [ih, List.map_cons, hf]
+      constructor
+      · rintro ⟨bs, rfl, h⟩
+        exact ⟨b :: bs, by simp, by simp [h]⟩
+      · rintro ⟨bs, rfl, h⟩
+        cases bs with
+        | nil => simp at h
+        | cons b' bs =>
+          simp only [List.map_cons, List.cons.injEq, Res.ok.injEq] at h
+          obtain ⟨rfl, h⟩ := h
+          exact ⟨bs, by simp, h⟩
+    | err e =>
+      simp only [List.map_cons, hf]
+      constructor
+      · intro h; cases h
+      · rintro ⟨bs, _, h⟩
+        cases bs with
+        | nil => simp at h
+        | cons b' bs => simp at h
+    | panic s =>
+      simp only [List.map_cons, hf]
+      constructor
+      · intro h; cases h
+      · rintro ⟨bs, _, h⟩
+        cases bs with
+        | nil => simp at h
+        | cons b' bs => simp at h
+
+/-- a panic of the loop is a panic of the binding of one entry -/
+theorem bindEntriesLoop_panic {σ β : Type} {f : σ → Res β} {tag : String} {i : Nat} {sels : List σ}
+    {acc : List β} {s : String} (h : bindEntriesLoop f tag i sels acc = .panic s) :
+    ∃ sel ∈ sels, f sel = .panic s := by
+  induction sels generalizing i acc with
+  | nil => simp [bindEntriesLoop] at h
+  | cons sel rest ih =>
+    unfold bindEntriesLoop at h
+    cases hf : f sel with
+    | ok b =>
+      rw [hf] at h
+      obtain ⟨sel', hm, hp⟩ := ih h
+      exact ⟨sel', List.mem_cons_of_mem _ hm, hp⟩
+    | err e => rw [hf] at h; cases h
+    | panic s' =>
+      rw [hf] at h
+      cases h
+      exact ⟨sel, List.mem_cons_self, hf⟩
+
+/-- failure: the error names the FIRST entry that cannot be bound; all entries before it can -/
+theorem bindEntriesLoop_err_iff {σ β : Type} (f : σ → Res β) (tag : String) (i : Nat) (sels : List σ)
+    (acc : List β) (e : String) :
+    bindEntriesLoop f tag i sels acc = .err e ↔
+      ∃ pre sel post, sels = pre ++ sel :: post ∧ (∀ s ∈ pre, ∃ b, f s = .ok b) ∧
+        (∃ e', f sel = .err e') ∧ e = errAt tag (i + pre.length) := by
+  induction sels generalizing i acc with
+  | nil => simp [bindEntriesLoop]
+  | cons sel rest ih =>
+    unfold bindEntriesLoop
+    cases hf : f sel with
+    | ok b =>
+      simp only [ih]
+      constructor
+      · rintro ⟨pre, s, post, rfl, hpre, hs, rfl⟩
+        refine ⟨sel :: pre, s, post, rfl, ?_, hs, ?_⟩
+        · intro x hx
+          rcases List.mem_cons.1 hx with rfl | hx
+          · exact ⟨b, hf⟩
+          · exact hpre x hx
+        · simp only [List.length_cons]
+          congr 1; omega
+      · rintro ⟨pre, s, post, heq, hpre, hs, rfl⟩
+        cases pre with
+        | nil =>
+          simp only [List.nil_append, List.cons.injEq] at heq
+          obtain ⟨rfl, _⟩ := heq
+          obtain ⟨e', he'⟩ := hs
+          rw [hf] at he'; cases he'
+        | cons x pre =>
+          simp only [List.cons_append, List.cons.injEq] at heq
+          obtain ⟨rfl, rfl⟩ := heq
+          refine ⟨pre, s, post, rfl, fun y hy => hpre y (List.mem_cons_of_mem _ hy), hs, ?_⟩
+          simp only [List.length_cons]
+          congr 1; omega
+    | err e' =>
+      simp only [Res.err.injEq]
+      constructor
+      · rintro rfl
+        exact ⟨[], sel, rest, rfl, by simp, ⟨e', hf⟩, rfl⟩
+      · rintro ⟨pre, s, post, heq, hpre, hs, rfl⟩
+        cases pre with
+        | nil => rfl
+        | cons x pre =>
+          simp only [List.cons_append, List.cons.injEq] at heq
+          obtain ⟨rfl, _⟩ := heq
+          obtain ⟨b, hb⟩ := hpre _ List.mem_cons_self
+          rw [hf] at hb; cases hb
+    | panic s' =>
+      constructor
+      · intro h; cases h
+      · rintro ⟨pre, s, post, heq, hpre, hs, _⟩
+        cases pre with
+        | nil =>
+          simp only [List.nil_append, List.cons.injEq] at heq
+          obtain ⟨rfl, _⟩ := heq
+          obtain ⟨e', he'⟩ := hs
+          rw [hf] at he'; cases he'
+        | cons x pre =>
+          simp only [List.cons_append, List.cons.injEq] at heq
+          obtain ⟨rfl, _⟩ := heq
+          obtain ⟨b, hb⟩ := hpre _ List.mem_cons_self
+          rw [hf] at hb; cases hb
+
+/-- when the binding of one entry cannot panic, the call fails iff some entry fails -/
+theorem bindEntriesLoop_fails_iff {σ β : Type} (f : σ → Res β) (tag : String) (i : Nat) (sels : List σ)
+    (acc : List β) (hnp : ∀ sel s, f sel ≠ .panic s) :
+    (∃ e, bindEntriesLoop f tag i sels acc = .err e) ↔ ∃ sel ∈ sels, ∃ e, f sel = .err e := by
+  constructor
+  · rintro ⟨e, h⟩
+    obtain ⟨pre, sel, post, rfl, _, hs, _⟩ := (bindEntriesLoop_err_iff f tag i sels acc e).1 h
+    exact ⟨sel, by simp, hs⟩
+  · rintro ⟨sel, hmem, e', he'⟩
+    cases h : bindEntriesLoop f tag i sels acc with
+    | err e => exact ⟨e, rfl⟩
+    | panic s =>
+      obtain ⟨sel', _, hp⟩ := bindEntriesLoop_panic h
+      exact absurd hp (hnp sel' s)
+    | ok out =>
+      obtain ⟨bs, _, hmap⟩ := (bindEntriesLoop_ok_iff f tag i sels acc out).1 h
+      have : f sel ∈ sels.map f := List.mem_map_of_mem hmem
+      rw [hmap, he'] at this
+      obtain ⟨b, _, hb⟩ := List.mem_map.1 this
+      cases hb
+
+/-- `l.map f = r.map ok`, index by index -/
+theorem map_eq_map_ok_iff {σ β : Type} (f : σ → Res β) (sels : List σ) (bs : List β) :
+    sels.map f = bs.map Res.ok ↔
+      bs.length = sels.length ∧ ∀ i (h₁ : i < sels.length) (h₂ : i < bs.length), f sels[i] = .ok bs[i] := by
+  constructor
+  · intro h
+    have hl : bs.length = sels.length := by simpa using (congrArg List.length h).symm
+    refine ⟨hl, fun i h₁ h₂ => ?_⟩
+    have := List.getElem_of_eq h (i := i) (by simpa using h₁)
+    simpa using this
+  · rintro ⟨hl, h⟩
+    apply List.ext_getElem
+    · simp [hl]
+    · intro i h₁ h₂
+      simp only [List.length_map] at h₁ h₂
+      simpa using h i h₁ h₂
+
+/-- entry `i` of a successful call and entry `j` of another successful call that are the same
+    configuration entry are bound to the same device: the other entries do not matter -/
+theorem map_eq_map_ok_no_leak {σ β : Type} {f : σ → Res β} {sels sels' : List σ} {bs bs' : List β}
+    (h : sels.map f = bs.map Res.ok) (h' : sels'.map f = bs'.map Res.ok) {i j : Nat} {sel : σ}
+    (hi : sels[i]? = some sel) (hj : sels'[j]? = some sel) :
+    ∃ b, bs[i]? = some b ∧ bs'[j]? = some b ∧ f sel = .ok b := by
+  have e1 : (sels.map f)[i]? = some (f sel) := by simp [hi]
+  have e2 : (sels'.map f)[j]? = some (f sel) := by simp [hj]
+  rw [h, List.getElem?_map] at e1
+  rw [h', List.getElem?_map] at e2
+  cases hb : bs[i]? with
+  | none => simp [hb] at e1
+  | some b =>
+    cases hb' : bs'[j]? with
+    | none => simp [hb'] at e2
+    | some b' =>
+      simp only [hb, Option.map_some, Option.some.injEq] at e1
+      simp only [hb', Option.map_some, Option.some.injEq] at e2
+      rw [← e1] at e2
+      cases e2
+      exact ⟨b, rfl, rfl, e1.symm⟩
+
+/-- a call whose entries all occur in a successful call succeeds (removing, permuting or
+    repeating entries never turns success into failure) -/
+theorem map_eq_map_ok_of_subset {σ β : Type} {f : σ → Res β} {sels sels' : List σ} {bs : List β}
+    (h : sels.map f = bs.map Res.ok) (hsub : ∀ sel ∈ sels', sel ∈ sels) :
+    ∃ bs' : List β, sels'.map f = bs'.map Res.ok := by
+  induction sels' with
+  | nil => exact ⟨[], rfl⟩
+  | cons s rest ih =>
+    obtain ⟨bs', hbs'⟩ := ih (fun x hx => hsub x (List.mem_cons_of_mem _ hx))
+    have : f s ∈ sels.map f := List.mem_map_of_mem (hsub s List.mem_cons_self)
+    rw [h] at this
+    obtain ⟨b, _, hb⟩ := List.mem_map.1 this
+    exact ⟨b :: bs', by simp [hbs', ← hb]⟩
+
+theorem bindSensors_ok_iff (m : String → String → Bool) (chips : List Chip) (sels : List SensorSel)
+    (ps : List String) :
+    bindSensors m chips sels = .ok ps ↔ sels.map (bindSensor m chips) = ps.map Res.ok := by
+  unfold bindSensors
+  rw [bindEntriesLoop_ok_iff]
+  simp
+
+theorem bindFans_ok_iff (m : String → String → Bool) (chips : List Chip) (sels : List FanSel)
+    (bs : List FanBinding) :
+    bindFans m chips sels = .ok bs ↔ sels.map (bindFan m chips) = bs.map Res.ok := by
+  unfold bindFans
+  rw [bindEntriesLoop_ok_iff]
+  simp
+
+/-- one sensor entry fails iff no matching controller has the index -/
+theorem bindSensor_err_iff (m : String → String → Bool) (chips : List Chip) (sel : SensorSel) :
+    (∃ e, bindSensor m chips sel = .err e) ↔
+      ∀ c ∈ chips, m sel.platform c.platform = true → lookupTemp c.temps sel.index = none := by
+  constructor
+  · rintro ⟨e, he⟩ c hc hm
+    cases hl : lookupTemp c.temps sel.index with
+    | none => rfl
+    | some p =>
+      obtain ⟨_, _, _, _, _, hok⟩ := bindSensor_ok_of_some_present (m := m) (sel := sel)
+        ⟨c, hc, hm, by simp [hl]⟩
+      rw [he] at hok; cases hok
+  · intro h
+    exact ⟨_, bindSensor_err_of_no_hit h⟩
+
+/-- one fan entry fails iff no fan of a matching controller passes the selector -/
+theorem bindFan_err_iff (m : String → String → Bool) (chips : List Chip) (sel : FanSel) :
+    (∃ e, bindFan m chips sel = .err e) ↔
+      ∀ c ∈ chips, m sel.platform c.platform = true → ∀ f ∈ c.fans, fanOk sel f = false := by
+  constructor
+  · rintro ⟨e, he⟩
+    induction chips with
+    | nil => simp
+    | cons c cs ih =>
+      unfold bindFan at he
+      by_cases hm : m sel.platform c.platform = true
+      · simp only [hm, if_true] at he
+        cases hb : bindFanDevs sel c.fans with
+        | some b => simp [hb] at he
+        | none =>
+          simp only [hb] at he
+          intro c' hc' hm'
+          rcases List.mem_cons.1 hc' with rfl | hc'
+          · exact (bindFanDevs_none_iff sel _).1 hb
+          · exact ih he c' hc' hm'
+      · simp only [hm] at he
+        intro c' hc' hm'
+        rcases List.mem_cons.1 hc' with rfl | hc'
+        · exact absurd hm' hm
+        · exact ih he c' hc' hm'
+  · intro h
+    exact ⟨_, bindFan_err_of_no_device h⟩
+
 end Hwmon
 end Fan2go
